@@ -145,3 +145,14 @@ Proof.
     { destruct (size mod nper =? 0) eqn:M; nia. }
     replace (Z.to_nat (size / nper + (if size mod nper =? 0 then 0 else 1))) with 0%nat by lia. reflexivity.
 Qed.
+
+(* ------------------------------------------------------------------ total= enters only through None / zero / non-zero *)
+(* (what justifies driving total= as floats, numpy scalars and bools against an integer model: any two non-zero totals
+   give the same items, pulls and ending) *)
+Lemma pbar_total_only_zeroness s h t1 t2 items :
+  t1 <> 0 -> t2 <> 0 ->
+  pbar {| simple := s; has_len := h; total := Some t1 |} items = pbar {| simple := s; has_len := h; total := Some t2 |} items.
+Proof.
+  intros H1 H2. unfold pbar, eff_total. cbn [simple has_len total]. destruct s; [|reflexivity].
+  destruct (t1 =? 0) eqn:E1; [lia|]. destruct (t2 =? 0) eqn:E2; [lia|]. reflexivity.
+Qed.
